@@ -11,6 +11,9 @@ pub enum Level {
     Core,
     Medium,
     Full,
+    /// control-flow core plus DATA/READ/RESTORE, DEF FN, arrays, strings, SWAP,
+    /// CLEAR, ERASE, INPUT: the features compose with each other
+    Mixed,
 }
 
 impl Level {
@@ -19,6 +22,7 @@ impl Level {
             Level::Core => "core",
             Level::Medium => "medium",
             Level::Full => "full",
+            Level::Mixed => "mixed",
         }
     }
 }
@@ -48,6 +52,9 @@ pub fn alphabet_at(level: Level, k: usize, base: u16) -> Vec<Stmt> {
     let last = *lines.last().unwrap();
     let absent = base + (k as u16) * 10;
     let mut a: Vec<Stmt> = vec![];
+    if level == Level::Mixed {
+        return mixed_alphabet(first, last);
+    }
     let full = level == Level::Full;
     let med = level != Level::Core;
     a.push(marker());
@@ -171,6 +178,58 @@ pub fn alphabet_at(level: Level, k: usize, base: u16) -> Vec<Stmt> {
         a.push(Stmt::Input(Some("Q".into()), vec![LVal::Var("J".into())]));
     }
     a
+}
+
+fn mixed_alphabet(first: u16, last: u16) -> Vec<Stmt> {
+    let lv = |n: &str| LVal::Var(n.into());
+    let pr = |items: Vec<Expr>| {
+        let mut v = vec![];
+        for e in items {
+            v.push(PItem::E(e));
+            v.push(PItem::Semi);
+        }
+        Stmt::Print(v)
+    };
+    let fna = |e: Expr| Expr::Fn("FNA".into(), vec![e]);
+    vec![
+        marker(),
+        let_i_plus_1(),
+        Stmt::Goto(last),
+        Stmt::Gosub(last),
+        Stmt::Return,
+        Stmt::If(i_lt_2(), Branch::Line(first), None),
+        for_("I", 1, 2, None),
+        Stmt::Next(vec![]),
+        Stmt::End,
+        Stmt::Stop,
+        Stmt::OnGosub(var("I"), vec![first, last]),
+        // DATA / READ / RESTORE
+        Stmt::Data(vec![int(1), int(2)]),
+        Stmt::Data(vec![strlit("s"), int(3)]),
+        Stmt::Read(vec![lv("I")]),
+        Stmt::Read(vec![lv("J"), lv("A$")]),
+        Stmt::Restore(None),
+        Stmt::Restore(Some(last)),
+        // user functions
+        Stmt::Def("FNA".into(), vec!["X".into()], bin(BinOp::Add, var("X"), var("I"))),
+        Stmt::Def("FNA".into(), vec!["I".into()], bin(BinOp::Mul, var("I"), int(2))),
+        pr(vec![fna(var("I"))]),
+        Stmt::Let(lv("I"), fna(int(1))),
+        // arrays
+        Stmt::Dim(vec![("A".into(), vec![int(2)])]),
+        Stmt::Let(LVal::Arr("A".into(), vec![var("I")]), bin(BinOp::Add, var("I"), int(1))),
+        pr(vec![Expr::Arr("A".into(), vec![var("I")]), Expr::Arr("A".into(), vec![int(1)])]),
+        Stmt::Erase(vec!["A".into()]),
+        // strings
+        Stmt::Let(lv("A$"), bin(BinOp::Add, var("A$"), strlit("x"))),
+        pr(vec![var("A$"), Expr::Call("LEN".into(), vec![var("A$")])]),
+        // whole-store statements
+        Stmt::Swap(lv("I"), lv("J")),
+        Stmt::Clear,
+        pr(vec![var("I"), var("J")]),
+        Stmt::Input(None, vec![lv("I")]),
+        Stmt::If(var("J"), Branch::Stmts(vec![Stmt::Read(vec![lv("I")])]), Some(Branch::Stmts(vec![Stmt::Restore(None)]))),
+    ]
 }
 
 /// Give every marker PRINT a letter unique to its position.
